@@ -207,7 +207,7 @@ MUTANTS = [
     ('aggregate-search-flag-overwritten', 'src/ast/utility/Utils.cpp', '        found_in_agg = found_in_agg || visitExists(cur, [&](const Atom& atom) {', '        found_in_agg = visitExists(cur, [&](const Atom& atom) {', 'R4'),
     ('counter-type-not-checked', 'src/ast/transform/TypeChecker.cpp', '''    if (!isOfKind(types, TypeAttribute::Signed)) {
         report.addError("Counter (type mismatch)", counter.getSrcLoc());
-    }''', '''    (void)types;''', None),
+    }''', '''    (void)types;''', 'R6'),
     ('apply-skips-error-exit-when-unchanged', 'src/ast/transform/Transformer.cpp', '''    /* Abort evaluation of the program if errors were encountered */
     translationUnit.getErrorReport().exitIfErrors();''', '''    /* Abort evaluation of the program if errors were encountered */
     if (changed) translationUnit.getErrorReport().exitIfErrors();''', 'R1'),
@@ -305,7 +305,9 @@ def rule_argument_kinds(rep, tc):
     handled = set()
     for f in tc.functions:
         if f.name == 'visit_' and f.d.get('cls') == 'TypeCheckerImpl' and len(f.d['params']) > 1:
-            handled.add(f.d['params'][1]['t'].replace('const ', '').strip(' &').split('::')[-1])
+            # a check, not just an override: it must be able to report
+            if any(is_call(m) and m.get('cn') in ('addError', 'addDiagnostic') for m in f.walk()):
+                handled.add(f.d['params'][1]['t'].replace('const ', '').strip(' &').split('::')[-1])
     for leaf in leaves:
         if leaf in ARG_EXCEPT and ARG_EXCEPT[leaf]:
             continue
